@@ -139,6 +139,11 @@ impl Session {
     ) -> Response {
         let bytes = rx.as_mut_for_read();
         if let Ok(encrypted_data) = EncryptedDataPayload::parse(bytes) {
+            // An end-device acts on downlink frames only: an uplink-typed frame (another
+            // device's, or an echo of its own) is ignored, whatever its MIC.
+            if encrypted_data.is_uplink() {
+                return Response::NoUpdate;
+            }
             {
                 // Drop oversized packets which exceed the maximum allowed
                 // transmission time defined by PHY layer.
